@@ -128,10 +128,27 @@ func genC16(rng *rand.Rand) *tcase {
 		lines = append(lines, text)
 		return len(lines)
 	}
+	// the same script without UpdateScripts (the "plain" run): every mismatching cmp is a failure.
+	// It separates C01 matters (also wrong in the plain run) from C16 matters (only wrong under UpdateScripts).
+	alive0, firstFail0 := true, -1
+	var tree0 []string
+	fail0 := func(ln int) {
+		if !alive0 {
+			return
+		}
+		if firstFail0 < 0 {
+			firstFail0 = ln
+		}
+		if !g.fl.cont {
+			alive0 = false
+			tree0 = s.tree()
+		}
+	}
 	fail := func(ln int, why string) {
 		if !alive {
 			return
 		}
+		fail0(ln)
 		rec.otherFail = true
 		recipe = append(recipe, fmt.Sprintf("line %d fails (%s)", ln, why))
 		tags = append(tags, "other-failure:"+why)
@@ -248,6 +265,7 @@ func genC16(rng *rand.Rand) *tcase {
 				act := srcContent(src)
 				if act != gold {
 					rec.updates[gname] = act
+					fail0(ln)
 					recipe = append(recipe, fmt.Sprintf("line %d: cmp mismatch on %s -> update", ln, gname))
 					tags = append(tags, "update")
 				} else {
@@ -265,6 +283,7 @@ func genC16(rng *rand.Rand) *tcase {
 						rec.conflict = true
 						if act != gold {
 							rec.updates[gname] = act
+							fail0(ln)
 							recipe = append(recipe, fmt.Sprintf("line %d: second cmp mismatch on %s -> last wins", ln, gname))
 							tags = append(tags, "update-twice")
 						}
@@ -343,6 +362,7 @@ func genC16(rng *rand.Rand) *tcase {
 			ln := emit("cmp " + g.rel(gname) + " " + g.rel(in))
 			if alive && s.files[gname] != s.files[in] {
 				rec.updates[in] = s.files[gname]
+				fail0(ln)
 				recipe = append(recipe, fmt.Sprintf("line %d: cmp golden against entry %s -> that entry is updated", ln, in))
 				tags = append(tags, "update-input-entry")
 				rec.conflict = true
@@ -417,10 +437,21 @@ func genC16(rng *rand.Rand) *tcase {
 		tags = append(tags, "builtin-only")
 	}
 	exp := &obs{verdict: verdict, line: firstFail, tree: s.tree(), file: after}
+	verdict0 := "pass"
+	switch {
+	case firstFail0 >= 0:
+		verdict0 = "fail"
+	case alive0 && endsWith == "skip":
+		verdict0 = "skip"
+	}
+	if alive0 {
+		tree0 = s.tree()
+	}
+	exp0 := &obs{verdict: verdict0, line: firstFail0, tree: tree0, file: file}
 	if len(recipe) == 0 {
 		recipe = append(recipe, "no comparison executed")
 	}
-	return &tcase{kind: "c16", fl: g.fl, file: file, exp: exp, recipe: strings.Join(recipe, "; "), tags: tags, c16: rec}
+	return &tcase{kind: "c16", fl: g.fl, file: file, exp: exp, exp0: exp0, recipe: strings.Join(recipe, "; "), tags: tags, c16: rec}
 }
 
 func goFixNLs(d []byte) []byte {
